@@ -33,7 +33,7 @@ FUNC = {
     "sock_new": "p_socket_new", "sock_bad": "p_socket_new", "sock_listen": "p_socket_bind", "sock_connect": "p_socket_connect",
     "sock_connect_refused": "p_socket_connect", "sock_connect_timeout": "p_socket_connect", "sock_accept": "p_socket_accept",
     "sock_local": "p_socket_get_local_address", "sock_remote": "p_socket_get_remote_address", "sock_udp_echo": "p_socket_receive_from",
-    "sock_close": "p_socket_close", "sock_io_closed": "p_socket_send", "dir_create_missing": "p_dir_create", "dir_remove_missing": "p_dir_remove", "sock_free": "p_socket_free", "sock_from_fd": "p_socket_new_from_fd",
+    "sock_close": "p_socket_close", "sock_shutdown": "p_socket_shutdown", "sock_io_closed": "p_socket_send", "dir_create_missing": "p_dir_create", "dir_remove_missing": "p_dir_remove", "sock_free": "p_socket_free", "sock_from_fd": "p_socket_new_from_fd",
     "sem_new": "p_semaphore_new", "sem_free": "p_semaphore_free", "shm_new": "p_shm_new", "shm_free": "p_shm_free",
     "shmbuf_new": "p_shm_buffer_new", "shmbuf_free": "p_shm_buffer_free",
     "mutex_new": "p_mutex_new", "cond_new": "p_cond_variable_new", "rwlock_new": "p_rwlock_new", "rwlockg_new": "p_rwlock_new(general)",
